@@ -144,7 +144,15 @@ ReqTypeCases == {[t |-> "error", what |-> "reqtype", i |-> code, key |-> "", c |
                    code \in 0..80}
 \* several role features at once (expanded by the driver over every role and neighbouring feature pairs / all features)
 FeatureSetCases == {[t |-> t, what |-> "features", i |-> 0, key |-> "", c |-> "true", kind |-> "bool", verdict |-> "accept"] : t \in {"hello", "welcome"}}
-Cases == BaseCases \cup PosCasesOk \cup KeyCases \cup LenCasesOk \cup FeatureCases \cup ReqTypeCases \cup FeatureSetCases
+\* role names in details.roles: HELLO announces client roles, WELCOME router roles, each with a dict as value.  A role of the
+\* other side or an unknown one may be refused or ignored (either) - but whatever the value, only the library's own errors
+RoleNames == {"subscriber", "publisher", "caller", "callee", "broker", "dealer", "bogus_role"}
+RolesOf(t) == IF t = "hello" THEN {"subscriber", "publisher", "caller", "callee"} ELSE {"broker", "dealer"}
+RoleValueClasses == {"dict_empty", "null", "str_uri", "list_empty", "int1", "true"}
+RoleVerdict(t, r, c) == IF r \in RolesOf(t) THEN (IF c = "dict_empty" THEN "accept" ELSE "reject") ELSE "either"
+RoleCases == {[t |-> t, what |-> "role", i |-> 0, key |-> r, c |-> c, kind |-> "role", verdict |-> RoleVerdict(t, r, c)] :
+                t \in {"hello", "welcome"}, r \in RoleNames, c \in RoleValueClasses}
+Cases == RoleCases \cup BaseCases \cup PosCasesOk \cup KeyCases \cup LenCasesOk \cup FeatureCases \cup ReqTypeCases \cup FeatureSetCases
 
 TableSane ==
   /\ Cardinality(TypeNames) = 25 /\ Cardinality(Codes) = 25
